@@ -116,7 +116,10 @@ func newCreateTable(ct sql.CreateTableStmt) *Schema {
 						Collate:   c.Collate,
 						SortOrder: c.PrimaryKeyDir,
 					},
-				}) {
+				}) && !isRowid(false, c.Type, c.PrimaryKeyDir) {
+					// SQLite builds the index of an `INTEGER PRIMARY KEY` of a
+					// WITHOUT ROWID table after all other constraints: it
+					// takes no autoindex number at this position.
 					autoindex++
 				}
 			} else {
@@ -173,7 +176,14 @@ constraint:
 						col.Null = false
 					}
 				}
-				if !st.setPK(st.toIndexColumns(c.IndexedColumns)) {
+				intPK := false
+				if len(c.IndexedColumns) == 1 {
+					col := st.column(c.IndexedColumns[0].Column)
+					intPK = col != nil && isRowid(true, col.Type, c.IndexedColumns[0].SortOrder)
+				}
+				if !st.setPK(st.toIndexColumns(c.IndexedColumns)) && !intPK {
+					// (see the column constraint case: an integer primary
+					// key's index is built last)
 					autoindex++
 				}
 				continue
